@@ -47,7 +47,14 @@ let c01 s b =
         List.iter (fun r -> Printf.bprintf b " %d" (int_of_f32 all.(int_of_nat r))) roots
       end) pts
 
+(* Stage-A validator on a (ssa tape, register tape) pair, e.g. the implementation's own *)
+let cmd_val s b =
+  let ssa = parse_tape s in
+  let reg = parse_tape s in
+  Printf.bprintf b "val %d" (if check_alloc f32_eqb ssa reg then 1 else 0)
+
 let dispatch cmd s b =
   match cmd with
   | "c01" -> c01 s b
+  | "val" -> cmd_val s b
   | _ -> Printf.bprintf b "unknown-command %s" cmd
